@@ -556,6 +556,21 @@ func (p *faultProp) Check(c Case) Outcome {
 	var faults []Fault
 	if ok {
 		faults = []Fault{f}
+		if p.id == "C15" && len(c.Store.Faults) == 0 {
+			// a quarter of the cases: a second fault at another address (pairs of faults, e.g. on two shards)
+			if pick, _ := c.Extra["pick"].(float64); uint64(pick)%4 == 0 {
+				addrs := addressesOf(cal.Report, kind)
+				if len(addrs) > 1 {
+					f2, _ := faultFor(addrs[(uint64(pick)/4)%uint64(len(addrs))], kind)
+					if f2 != f {
+						faults = append(faults, f2)
+						o.Count("fault_pairs", 1)
+					}
+				}
+			}
+		}
+	} else if kind == "sequence" {
+		return p.checkSequence(c)
 	} else if kind != "none" {
 		o.Skipped = "no such fault address"
 		return o
@@ -572,6 +587,7 @@ func (p *faultProp) Check(c Case) Outcome {
 		o.NonTrivial = true
 		o.Count("faults_fired", 1)
 		o.Tag(fmt.Sprintf("addr:%s|%s|%s|%d|%v", c.Query, kind, f.Call, f.Nth, c.Window.Instant()))
+		o.Identity = fmt.Sprintf("%s|%v|%d|%d|%s|%s|%s|%d|%d", c.Query, c.Window.Instant(), c.Engine.Procs, c.NParts, kind, f.Call, f.SelKey, f.Series, f.Nth)
 		o.Tag("call:" + f.Call)
 	} else if kind == "none" {
 		o.NonTrivial = true
@@ -701,11 +717,62 @@ func (p *faultProp) judgeLedger(c Case, fr faultRun, desc string, o *Outcome, la
 	}
 }
 
+// checkSequence (C17): several queries one after the other over ONE store that hands out the same
+// label slices every time: every querier of every query closed exactly once before its Exec returned,
+// storage labels untouched at the end, and each result equal to the one over a fresh store.
+func (p *faultProp) checkSequence(c Case) Outcome {
+	var o Outcome
+	pick, _ := c.Extra["pick"].(float64)
+	r := NewRng(uint64(pick), 1717)
+	st := NewStore(c.Dataset, StoreOpts{})
+	ctx := context.Background()
+	n := 3 + r.Intn(4)
+	for k := 0; k < n; k++ {
+		sh := faultShapes[r.Intn(len(faultShapes))]
+		if sh.Dist {
+			sh = faultShapes[r.Intn(20)]
+		}
+		q := sh.Query
+		if k == 0 {
+			q = c.Query
+		}
+		cfg := EngineCfg{Opt: sh.Opt, Fallback: sh.Fallback, Procs: c.Engine.Procs}
+		w := faultWindow(r.P(0.3))
+		st.Phase.Store(0)
+		before := len(st.Report().Queriers)
+		got := RunEngine(ctx, st, cfg, q, w)
+		rep := st.Report()
+		for _, qr := range rep.Queriers[before:] {
+			if qr.Closes != 1 {
+				o.Add("querier-close-count", fmt.Sprintf("query %d of the sequence (`%s`): querier #%d closed %d times", k, q, qr.ID, qr.Closes))
+			} else if qr.ClosePhase != 0 {
+				o.Add("querier-late-close", fmt.Sprintf("query %d of the sequence (`%s`): querier #%d closed after Exec had returned", k, q, qr.ID))
+			}
+		}
+		o.Count("queriers_checked", int64(len(rep.Queriers)-before))
+		fresh := RunEngine(ctx, NewStore(c.Dataset, StoreOpts{}), cfg, q, w)
+		if d := Compare(got.Res, fresh.Res); d != nil {
+			o.Add("sequence-result", fmt.Sprintf("query %d of the sequence (`%s`) over the shared store differs from the same query over a fresh store: %s", k, q, d.Detail))
+			break
+		}
+		for _, m := range st.VerifyPristine() {
+			o.Add("storage-labels-modified", fmt.Sprintf("after query %d of the sequence (`%s`): %s", k, q, m))
+		}
+		if len(o.Violations) > 0 {
+			break
+		}
+	}
+	o.Count("sequence_queries", int64(n))
+	o.NonTrivial = true
+	o.Identity = fmt.Sprintf("sequence|%s|%v", c.Query, pick)
+	return o
+}
+
 func init() {
 	Register(&faultProp{id: "C13", kinds: []string{"panic-runtime", "panic-error"}})
 	Register(&faultProp{id: "C15", kinds: []string{"err"}})
 	Register(&faultProp{id: "C14", kinds: []string{"cancel", "block", "err", "panic-runtime", "none"}})
-	Register(&faultProp{id: "C17", kinds: []string{"none", "err", "panic-runtime", "cancel"}})
+	Register(&faultProp{id: "C17", kinds: []string{"none", "err", "panic-runtime", "cancel", "sequence"}})
 }
 
 // ---------------------------------------------------------------------------------------------
